@@ -1,9 +1,11 @@
 /-
-  C11, error responses under interleaving.  If every response works on an error object of its own (created by the call that
-  hands it to AuthRequestError — the regenerated facts: pkg/op and pkg/oidc declare no package-level *oidc.Error, the handlers'
-  constant errors are built per call; `DefaultToServerError` makes a `new(Error)` for everything that is no *oidc.Error), then
-  under EVERY schedule each response carries the state / session_state of its own request.  With a shared object it does not
-  (witness: the schedule of seeded change C11-N).
+  C11, error responses under interleaving.  AuthRequestError / TryErrorRedirect complete and encode an object ALLOCATED IN THE
+  CALL (`errCopy := *e; e = &errCopy`; read from the source on every run: `GenErr.authRequestErrorProgram`,
+  `GenErr.tryErrorRedirectProgram`, `c11_error_answer_object_is_own`).  Hence, whatever error values the handlers were handed —
+  also one and the same `*oidc.Error` for all of them, a sentinel error of the storage — under EVERY schedule each response
+  carries the state / session_state of its own request, and no handed-in error object is ever written.
+  (Before the repair of F-C11e the functions wrote into the handed-in object: `ErrPar.handedProgram`, kept as the witness
+  that the condition on the statement list is what the theorem needs.)
 -/
 import OidcModel.Model.ErrPar
 import OidcModel.Proofs.C11
@@ -11,103 +13,166 @@ import OidcModel.Proofs.C11
 namespace C11
 open ErrPar
 
-/-- **regenerated fact: no `*oidc.Error` value lives at package level in pkg/op or pkg/oidc** — none that two requests could share -/
-theorem c11_no_shared_error_values : GenErr.sharedErrorValues = [] := by decide
+/-- **regenerated fact: the object that AuthRequestError / TryErrorRedirect write to and encode is allocated in the call** —
+    every `e.<field> = …` and the `AuthResponseURL(…, e, …)` of both functions address the call's own copy, never the object found
+    in the error that was handed in, and State and SessionState are both assigned before the object is encoded.
+    FALSE when the copy is removed (the statement lists then are `ErrPar.handedProgram`). -/
+theorem c11_error_answer_object_is_own :
+    progOK GenErr.authRequestErrorProgram = true ∧ progOK GenErr.tryErrorRedirectProgram = true := by decide
 
-/-- … and no call site of AuthRequestError / TryErrorRedirect hands over a package-level value; the constant errors are built by the call -/
-theorem c11_error_args_not_shared : GenErr.errorArgSites.all (fun s => s.2 == "fresh" || s.2 == "variable") = true := by decide
+/-- what holds for one response, whatever the others do and whatever object it was handed; `a` / `b` / `e` are the flags of
+    `ErrPar.okFrom` (State assigned / SessionState assigned / answer encoded) -/
+def ThreadOK (t : Thread) (st ss : Bytes) : Prop :=
+  t.state = st ∧ t.session = ss ∧
+  ∃ a b e, okFrom a b e t.prog = true
+    ∧ (a = true → t.own.1 = st) ∧ (b = true → t.own.2 = ss) ∧ (e = true → t.sent = some (st, ss))
 
-/-- what holds for one response, whatever the others do -/
-def ThreadOK (h : Heap) (t : Thread) (st ss : Bytes) : Prop :=
-  t.state = st ∧ t.session = ss ∧ t.pc ≤ 3
-  ∧ (t.pc = 1 ∨ t.pc = 2 → (h t.cell).1 = st)
-  ∧ (t.pc = 2 → (h t.cell).2 = ss)
-  ∧ (t.pc = 3 → t.sent = (st, ss))
+theorem setField_fst (f : String) (o : Obj) (st ss : Bytes) (a : Bool) (h : a = true → o.1 = st) :
+    (a || f == "State") = true → (setField f o st ss).1 = st := by
+  intro hh
+  unfold setField
+  by_cases hf : f = "State"
+  · simp [hf]
+  · have : a = true := by simpa [hf] using hh
+    by_cases hg : f = "SessionState" <;> simp [hf, hg, h this]
 
-theorem step_preserves (h : Heap) (ts : Nat → Thread) (cell : Nat → Nat) (st ss : Nat → Bytes)
-    (hinj : ∀ i j, cell i = cell j → i = j) (hcell : ∀ j, (ts j).cell = cell j)
-    (hok : ∀ j, ThreadOK h (ts j) (st j) (ss j)) (i : Nat) :
-    (∀ j, ((step h ts i).2 j).cell = cell j) ∧ ∀ j, ThreadOK (step h ts i).1 ((step h ts i).2 j) (st j) (ss j) := by
-  have hi := hok i
-  obtain ⟨hs, hss, hpc, h12, h2, h3⟩ := hi
-  constructor
-  · intro j
-    by_cases hj : j = i
-    · subst hj
-      simp only [step, stepT, if_true]
-      (repeat' split) <;> simp [hcell]
-    · simp [step, hj, hcell]
-  · intro j
-    by_cases hj : j = i
-    · subst hj
-      simp only [step, if_true]
-      unfold stepT
-      by_cases p0 : (ts j).pc = 0
-      · simp only [p0, if_true]
-        refine ⟨hs, hss, by simp, ?_, by simp, by simp⟩
-        intro _; simp [hs]
-      · by_cases p1 : (ts j).pc = 1
-        · simp only [p1, if_true, if_false, Nat.one_ne_zero]
-          refine ⟨hs, hss, by simp, ?_, ?_, by simp⟩
-          · intro _; simpa using h12 (Or.inl p1)
-          · intro _; simp [hss]
-        · by_cases p2 : (ts j).pc = 2
-          · simp only [p2, if_true, if_false]
-            refine ⟨hs, hss, by simp, by simp, by simp, ?_⟩
-            intro _
-            show (h (ts j).cell) = (st j, ss j)
-            have a := h12 (Or.inr p2)
-            have b := h2 p2
-            exact Prod.ext a b
-          · simp only [p0, p1, p2, if_false]
-            exact ⟨hs, hss, hpc, h12, h2, h3⟩
-    · -- another thread: its own object is not touched
-      have hne : (ts j).cell ≠ (ts i).cell := by
-        rw [hcell j, hcell i]; exact fun e => hj (hinj j i e)
-      obtain ⟨js, jss, jpc, j12, j2, j3⟩ := hok j
-      have hheap : (step h ts i).1 (ts j).cell = h (ts j).cell := by
-        simp only [step, stepT]
-        (repeat' split) <;> simp [hne]
-      simp only [step, hj, if_false] at hheap ⊢
-      refine ⟨js, jss, jpc, ?_, ?_, j3⟩
-      · intro hp; rw [hheap]; exact j12 hp
-      · intro hp; rw [hheap]; exact j2 hp
+theorem setField_snd (f : String) (o : Obj) (st ss : Bytes) (b : Bool) (h : b = true → o.2 = ss) :
+    (b || f == "SessionState") = true → (setField f o st ss).2 = ss := by
+  intro hh
+  unfold setField
+  by_cases hf : f = "State"
+  · have hne : ¬ (f = "SessionState") := by rw [hf]; decide
+    have : b = true := by simpa [hne] using hh
+    simp [hf, h this]
+  · by_cases hg : f = "SessionState"
+    · simp [hg]
+    · have : b = true := by simpa [hg] using hh
+      simp [hf, hg, h this]
 
-/-- **C11, error responses under interleaving (every schedule)** — partial: it needs every response to work on an error object
-    of its own, which the library guarantees for its OWN errors (regenerated facts above) but not for a `*oidc.Error` value a
-    Storage returns (F-C11e, witness `c11_shared_error_witness`).  Any number of error responses in flight, each on an error
-    object of its own: whatever the order in which the handlers take their steps, a response that has been sent carries the
+/-- one step of a handler whose remaining statements address only its own object: the handed-in objects are untouched and the
+    handler's invariant is kept -/
+theorem stepT_own (h : Heap) (t : Thread) (st ss : Bytes) (hok : ThreadOK t st ss) :
+    (stepT h t).1 = h ∧ ThreadOK (stepT h t).2 st ss := by
+  obtain ⟨hs, hss, a, b, e, hprog, ha, hb, he⟩ := hok
+  unfold stepT
+  match hp : t.prog with
+  | [] => exact ⟨rfl, hs, hss, a, b, e, by rw [hp] at hprog; simpa [hp] using hprog, ha, hb, he⟩
+  | .copy :: rest =>
+    rw [hp] at hprog
+    exact ⟨rfl, hs, hss, false, false, e, by simpa [okFrom] using hprog, by simp, by simp, he⟩
+  | .fresh :: rest =>
+    rw [hp] at hprog
+    exact ⟨rfl, hs, hss, false, false, e, by simpa [okFrom] using hprog, by simp, by simp, he⟩
+  | .set .own f :: rest =>
+    rw [hp] at hprog
+    refine ⟨rfl, hs, hss, (a || f == "State"), (b || f == "SessionState"), e, by simpa [okFrom] using hprog, ?_, ?_, he⟩
+    · intro hh; show (setField f t.own t.state t.session).1 = st
+      rw [hs, hss]; exact setField_fst f t.own st ss a ha hh
+    · intro hh; show (setField f t.own t.state t.session).2 = ss
+      rw [hs, hss]; exact setField_snd f t.own st ss b hb hh
+  | .set .handed f :: rest => rw [hp] at hprog; simp [okFrom] at hprog
+  | .encode .own :: rest =>
+    rw [hp] at hprog
+    simp only [okFrom, Bool.and_eq_true] at hprog
+    obtain ⟨⟨ha', hb'⟩, hrest⟩ := hprog
+    refine ⟨rfl, hs, hss, a, b, true, hrest, ha, hb, ?_⟩
+    intro _
+    show some t.own = some (st, ss)
+    rw [← ha ha', ← hb hb']
+  | .encode .handed :: rest => rw [hp] at hprog; simp [okFrom] at hprog
+  | .unsupported s :: rest => rw [hp] at hprog; simp [okFrom] at hprog
+
+/-- a step of ANY handler keeps every handler's invariant and leaves the handed-in objects as they were — no hypothesis on which
+    objects the handlers were handed (they may all be the same one) -/
+theorem step_preserves (h : Heap) (ts : Nat → Thread) (st ss : Nat → Bytes)
+    (hok : ∀ j, ThreadOK (ts j) (st j) (ss j)) (i : Nat) :
+    (step h ts i).1 = h ∧ ∀ j, ThreadOK ((step h ts i).2 j) (st j) (ss j) := by
+  have hi := stepT_own h (ts i) (st i) (ss i) (hok i)
+  refine ⟨hi.1, ?_⟩
+  intro j
+  by_cases hj : j = i
+  · subst hj; simpa [step] using hi.2
+  · simpa [step, hj] using hok j
+
+theorem run_preserves (sched : List Nat) (h : Heap) (ts : Nat → Thread) (st ss : Nat → Bytes)
+    (hok : ∀ j, ThreadOK (ts j) (st j) (ss j)) :
+    (ErrPar.run sched h ts).1 = h ∧ ∀ j, ThreadOK ((ErrPar.run sched h ts).2 j) (st j) (ss j) := by
+  induction sched generalizing h ts with
+  | nil => exact ⟨rfl, hok⟩
+  | cons i is ih =>
+    obtain ⟨hh, hok'⟩ := step_preserves h ts st ss hok i
+    have := ih (step h ts i).1 (step h ts i).2 hok'
+    simp only [ErrPar.run]
+    rw [hh] at this ⊢
+    exact this
+
+theorem threadOK_start (t : Thread) (hp : progOK t.prog = true) : ThreadOK t t.state t.session :=
+  ⟨rfl, rfl, false, false, false, hp, by simp, by simp, by simp⟩
+
+/-- the flags of a handler that has executed all its statements: it has encoded its answer -/
+theorem okFrom_nil (a b e : Bool) (h : okFrom a b e [] = true) : e = true := by simpa [okFrom] using h
+
+/-- **C11, error responses under interleaving (every schedule, every assignment of handed-in error objects)**: any number of
+    error responses in flight, each completing and encoding an object of its own (`progOK`), handed ANY error objects — also one
+    shared by all of them: whatever the order in which the handlers take their steps, a response that has been sent carries the
     state and the session_state of ITS OWN request — a function of that request alone. -/
-theorem c11_error_interleaving_partial (sched : List Nat) (h : Heap) (ts : Nat → Thread)
-    (hinj : ∀ i j, (ts i).cell = (ts j).cell → i = j) (hstart : ∀ j, (ts j).pc = 0) :
-    ∀ j, ((ErrPar.run sched h ts).2 j).pc = 3 → ((ErrPar.run sched h ts).2 j).sent = ((ts j).state, (ts j).session) := by
-  have gen : ∀ (sched : List Nat) (h : Heap) (cur : Nat → Thread),
-      (∀ j, (cur j).cell = (ts j).cell) → (∀ j, ThreadOK h (cur j) (ts j).state (ts j).session) →
-      ∀ j, ThreadOK (ErrPar.run sched h cur).1 ((ErrPar.run sched h cur).2 j) (ts j).state (ts j).session := by
-    intro sched
-    induction sched with
-    | nil => intro h cur _ hok j; exact hok j
-    | cons i is ih =>
-      intro h cur hcell hok j
-      obtain ⟨hc', hok'⟩ := step_preserves h cur (fun j => (ts j).cell) (fun j => (ts j).state) (fun j => (ts j).session) hinj hcell hok i
-      exact ih _ _ hc' hok' j
-  intro j hp
-  have := gen sched h ts (fun _ => rfl) (fun j => ⟨rfl, rfl, by simp [hstart j], by simp [hstart j], by simp [hstart j], by simp [hstart j]⟩) j
-  exact this.2.2.2.2.2 hp
+theorem c11_error_interleaving (sched : List Nat) (h : Heap) (ts : Nat → Thread)
+    (hprog : ∀ j, progOK (ts j).prog = true) :
+    ∀ j, ((ErrPar.run sched h ts).2 j).prog = [] →
+      ((ErrPar.run sched h ts).2 j).sent = some ((ts j).state, (ts j).session) := by
+  intro j hdone
+  obtain ⟨_, _, a, b, e, hk, _, _, he⟩ :=
+    (run_preserves sched h ts (fun j => (ts j).state) (fun j => (ts j).session) (fun j => threadOK_start (ts j) (hprog j))).2 j
+  rw [hdone] at hk
+  exact he (okFrom_nil a b e hk)
 
-/-- two responses that share ONE error object (what a package-level error value is), first one parked between filling in and
-    encoding while the second is answered completely -/
-def sharedThreads : Nat → Thread := fun j =>
-  if j = 0 then { cell := 7, state := [0x41], session := [0x61] } else { cell := 7, state := [0x42], session := [0x62] }
+/-- **no handed-in error object is ever written**: after any schedule of any number of error responses every `*oidc.Error` the
+    handlers were handed has the State / SessionState it had before (the sentinel error of a storage stays what it was) -/
+theorem c11_handed_errors_never_written (sched : List Nat) (h : Heap) (ts : Nat → Thread)
+    (hprog : ∀ j, progOK (ts j).prog = true) : (ErrPar.run sched h ts).1 = h :=
+  (run_preserves sched h ts (fun j => (ts j).state) (fun j => (ts j).session) (fun j => threadOK_start (ts j) (hprog j))).1
 
-/-- **witness (the schedule of seeded change C11-N): the first client receives the SECOND client's state and session_state** -/
-theorem c11_shared_error_witness :
-    ((ErrPar.run [0, 0, 1, 1, 1, 0] (fun _ => ([], [])) sharedThreads).2 0).sent = ([0x42], [0x62]) := by decide
+/-- the same two statements for the handlers as they are in the source: every response is an `AuthRequestError` or a
+    `TryErrorRedirect` (regenerated statement lists); no hypothesis is left -/
+theorem c11_error_interleaving_source (sched : List Nat) (h : Heap) (ts : Nat → Thread)
+    (hsrc : ∀ j, (ts j).prog = GenErr.authRequestErrorProgram ∨ (ts j).prog = GenErr.tryErrorRedirectProgram) :
+    (ErrPar.run sched h ts).1 = h ∧
+    ∀ j, ((ErrPar.run sched h ts).2 j).prog = [] →
+      ((ErrPar.run sched h ts).2 j).sent = some ((ts j).state, (ts j).session) := by
+  have hprog : ∀ j, progOK (ts j).prog = true := by
+    intro j
+    rcases hsrc j with e | e <;> rw [e]
+    · exact c11_error_answer_object_is_own.1
+    · exact c11_error_answer_object_is_own.2
+  exact ⟨c11_handed_errors_never_written sched h ts hprog, c11_error_interleaving sched h ts hprog⟩
 
-/-- the same two requests on objects of their own: each gets its own values back (instance of the theorem, evaluated) -/
+/-! ### the model before the repair (not reachable from the source any more) -/
+
+/-- two responses that were handed ONE error object (a sentinel error of the storage, a package-level error value), first one
+    parked between filling in and encoding while the second is answered completely -/
+def sharedThreads (prog : List Op) : Nat → Thread := fun j =>
+  if j = 0 then { cell := 7, state := [0x41], session := [0x61], prog := prog }
+  else { cell := 7, state := [0x42], session := [0x62], prog := prog }
+
+/-- **the statement list before the repair (writes into the handed-in object) under the schedule of F-C11e / seeded C11-N: the first
+    client receives the SECOND client's state and session_state, and the shared object keeps them** — `progOK` is what
+    `c11_error_interleaving` needs -/
+theorem c11_handed_write_crosstalk :
+    progOK handedProgram = false
+    ∧ ((ErrPar.run (schedOf true [handedProgram, handedProgram]) (fun _ => ([], [])) (sharedThreads handedProgram)).2 0).sent = some ([0x42], [0x62])
+    ∧ (ErrPar.run (schedOf true [handedProgram, handedProgram]) (fun _ => ([], [])) (sharedThreads handedProgram)).1 7 = ([0x42], [0x62]) := by decide
+
+/-- the same two requests, the same shared object, the same schedule on the statement list of the source: each gets its own values
+    back and the shared object is untouched (instance of the theorems, evaluated) -/
 example :
-    let ts : Nat → Thread := fun j => if j = 0 then { cell := 0, state := [0x41], session := [0x61] } else { cell := j, state := [0x42], session := [0x62] }
-    ((ErrPar.run [0, 0, 1, 1, 1, 0] (fun _ => ([], [])) ts).2 0).sent = ([0x41], [0x61])
-      ∧ ((ErrPar.run [0, 0, 1, 1, 1, 0] (fun _ => ([], [])) ts).2 1).sent = ([0x42], [0x62]) := by decide
+    let r := ErrPar.run (schedOf true [GenErr.authRequestErrorProgram, GenErr.authRequestErrorProgram]) (fun _ => ([], []))
+      (sharedThreads GenErr.authRequestErrorProgram)
+    (r.2 0).sent = some ([0x41], [0x61]) ∧ (r.2 1).sent = some ([0x42], [0x62]) ∧ r.1 7 = ([], []) ∧ (r.2 0).prog = [] ∧ (r.2 1).prog = [] := by decide
+
+/-- a rewrite that keeps the copy but completes a separate local value (`c := *e; c.State = …; AuthResponseURL(…, &c, …)`) or assigns the
+    two fields in the other order is accepted by the same condition -/
+example : progOK [.copy, .set .own "SessionState", .set .own "State", .encode .own] = true := by decide
+/-- encoding before both fields are assigned, or encoding the handed-in object after completing a copy, is not -/
+example : progOK [.copy, .set .own "State", .encode .own] = false ∧ progOK [.copy, .set .own "State", .set .own "SessionState", .encode .handed] = false := by decide
 
 end C11
